@@ -49,6 +49,8 @@ type rsCase struct {
 	// Before: another case validated immediately before this one in the same process (its result is discarded)
 	Before *rsCase `json:"before,omitempty"`
 	WS     int     `json:"ws"`
+	// KeepText: return the rendered document and the profile, for a second observation through the command line tool
+	KeepText bool `json:"keepText,omitempty"`
 }
 
 type rsObs struct {
@@ -59,6 +61,7 @@ type rsObs struct {
 	Conforms bool                           `json:"conforms"`
 	Results  []string                       `json:"results"` // severity|name|focus|message, sorted
 	Text     string                         `json:"text,omitempty"`
+	Profile  string                         `json:"profile,omitempty"`
 }
 
 // ordered JSON object
@@ -530,7 +533,11 @@ func runReser(c rsCase) (o rsObs) {
 		}
 	}
 	sort.Strings(o.Results)
-	o.Text = ""
+	if c.KeepText {
+		o.Profile = reserProfile
+	} else {
+		o.Text = ""
+	}
 	return
 }
 
